@@ -171,6 +171,7 @@ def main():
 
     # 3. audit
     thms, audit_raw, grep_hits = {}, "", []
+    leanchecker_status = "not run (quick tier)"
     bad_axioms = {}
     if proof_broken is None:
         thms, audit_raw = audit(mod.LEAN_MODULES, mod.NAMESPACES)
@@ -183,6 +184,13 @@ def main():
             proof_broken = "audit found no theorems in %s\n%s" % (mod.NAMESPACES, audit_raw[-3000:])
         elif bad_axioms or grep_hits:
             proof_broken = "audit failed: axioms %s ; source grep %s" % (bad_axioms, grep_hits)
+        if tier == "thorough" and proof_broken is None:
+            # independent re-check of the compiled property modules
+            pc = subprocess.run(["lake", "env", "leanchecker"] + list(mod.LEAN_MODULES), cwd=LEAN_DIR,
+                                capture_output=True, text=True, timeout=3000)
+            leanchecker_status = "ok" if pc.returncode == 0 else "FAILED: " + (pc.stdout + pc.stderr)[-800:]
+            if pc.returncode != 0:
+                proof_broken = "leanchecker rejected %s: %s" % (mod.LEAN_MODULES, leanchecker_status)
         required = set(getattr(mod, "REQUIRED_THEOREMS", []))
         missing = [t for t in required if t not in thms]
         if missing and proof_broken is None:
@@ -270,6 +278,7 @@ def main():
         ],
         "theorems": thms,
         "proof_broken": proof_broken is not None,
+        "leanchecker": leanchecker_status,
         "extractor": extract_status,
         "evaluations": res.get("evaluations", 0),
         "distinct_nontrivial": res.get("distinct_nontrivial", 0),
